@@ -383,12 +383,14 @@ func checkC17(w *World, r *Report) {
 			fi = w.MustFn(w.Godi, q.fn)
 		}
 		reads := false
-		ast.Inspect(fi.Decl.Body, func(x ast.Node) bool {
-			if sel, ok := x.(*ast.SelectorExpr); ok && fieldOf(fi.Pkg.TypesInfo, sel) == q.view {
-				reads = true
-			}
-			return true
-		})
+		for _, g := range w.Within(fi, 2) { // the query itself or a private helper it shares (hasService)
+			ast.Inspect(g.Decl.Body, func(x ast.Node) bool {
+				if sel, ok := x.(*ast.SelectorExpr); ok && fieldOf(g.Pkg.TypesInfo, sel) == q.view {
+					reads = true
+				}
+				return true
+			})
+		}
 		r.Check(reads, "R17.6", q.fn+"#reads:"+q.view.Name(), fi.Decl.Pos(), false, q.fn+" answers from "+q.view.Name(), q.fn+" no longer reads "+q.view.Name())
 	}
 	{
